@@ -222,3 +222,78 @@ def run_case(case, make_monitors, oracle=accessor_oracle, key_pred=None, prefix=
         res.outcome(("session", tuple(sorted((k, repr(v)) for k, v in cfg.items())), seq), nontrivial=any(o[0] == "L" for o in seq))
     res.sample({"cfg": cfg, "sequences": len(seqs), "example": list(seqs[len(seqs) // 2]) if seqs else None}, cap=1)
     return res
+
+
+# ------------------------------------------------------------------------------------------------------------------
+# Duo sessions: TWO samplers alive in one process, their public operations interleaved in every order up to a depth.
+DUO_OPS = ["aS", "bS", "aP", "bP"]
+
+
+def duo_sequences(depth):
+    for seq in itertools.product(DUO_OPS, repeat=depth):
+        if "aS" in seq and "bS" in seq:
+            yield seq
+
+
+def run_duo(case, make_monitors):
+    """Every interleaving of {iterate A, iterate B, query A, query B}: each sampler's recorded quantities must refer to ITS OWN history."""
+    from .core import Res
+
+    res = Res()
+    cfg = dict(case["cfg"])
+    seqs = [tuple(case["only"])] if case.get("only") else list(duo_sequences(case["depth"]))[case["shard"][0]::case["shard"][1]]
+    for seq in seqs:
+        A = Probe(cfg, base=case["base"], monitors=make_monitors(), max_iters=10 ** 6)
+        B = Probe(cfg, base=case["base"] + 1, monitors=make_monitors(), max_iters=10 ** 6)
+        probes = {"a": A, "b": B}
+        opno = [0]
+        for q in (A, B):
+            def begin(q=q):
+                q.iters += 1
+                q.in_iter = True
+                A.tape.rs.seed(iter_seed(case["base"], opno[0], "duo" + ("A" if q is A else "B")))
+            q._begin_iter = begin
+        err = None
+        pl._REG[id(A.state)] = A
+        pl._REG[id(B.state)] = B
+        try:
+            with env.quiet(), pl.instrumented(), A.tape:
+                for q in (A, B):
+                    q.sampler._core._initialize_fresh()
+                for _ in range(2):
+                    for q in (A, B):
+                        opno[0] += 1
+                        q.sampler.sample()
+                for op in seq:
+                    opno[0] += 1
+                    q = probes[op[0]]
+                    if op[1] == "S":
+                        q.sampler.sample()
+                    else:
+                        with OwnedRandom(3):
+                            q.sampler.posterior()
+                            q.sampler.results()
+                            q.state.compute_logw_and_logz(1.0)
+        except Exception as e:
+            err = e
+        finally:
+            pl._REG.pop(id(A.state), None)
+            pl._REG.pop(id(B.state), None)
+        res.evals += 1
+        res.states += len(seq)
+        res.trans += A.events + B.events
+        res.traces += 1
+        cc = dict(case, only=list(seq))
+        if err is not None:
+            res.bump("aborted_sessions")
+            res.bump("aborted:" + type(err).__name__)
+        for name, q in probes.items():
+            seen = set()
+            for key, msg, det in q.viol:
+                if key in seen:
+                    continue
+                seen.add(key)
+                res.violate("duo:" + key, f"sampler {name.upper()} of two samplers alive in one process: " + msg + f" [interleaving after 2 iterations each: {' '.join(seq)}; cfg={cfg}]", cc)
+        res.outcome(("duo", tuple(sorted((k, repr(v)) for k, v in cfg.items())), seq), nontrivial=True)
+    res.sample({"cfg": cfg, "interleavings": len(seqs), "example": list(seqs[len(seqs) // 2]) if seqs else None}, cap=1)
+    return res
